@@ -299,4 +299,831 @@ Proof.
     + intros Hn' Hh. pose proof (f_mu _ I _ _ Hn' Hh). congruence.
 Qed.
 
+(* ====================================================================== *)
+(* Invariant, part 2: canceler and the flushers' contexts                   *)
+(* ====================================================================== *)
+Definition CanOk (r : recst) (fls : list flusher) : Prop :=
+  (forall i, canceler r = Some i -> exists fl, nth_error fls i = Some fl /\ f_cancelled fl = false) /\
+  (forall f fl, nth_error fls f = Some fl -> f_cancelled fl = false -> canceler r = Some f).
+
+Lemma CanOk_reset : forall r fls, CanOk r fls -> CanOk (fst (do_reset r fls)) (snd (do_reset r fls)).
+Proof.
+  intros r fls [H1 H2]. unfold do_reset; cbn [fst snd canceler]. split; [discriminate|].
+  intros f fl' Hn Hu. exfalso. destruct (canceler r) as [i|] eqn:Ec.
+  - rewrite nth_error_cancel_fl in Hn. destruct (nth_error fls f) as [fl|] eqn:Ef; [|discriminate].
+    inversion Hn; subst fl'. destruct (Nat.eqb_spec i f) as [->|Hne]; [discriminate|].
+    pose proof (H2 _ _ Ef Hu). congruence.
+  - pose proof (H2 _ _ Hn Hu). congruence.
+Qed.
+
+Lemma CanOk_body : forall g cl r fls, CanOk r fls -> CanOk (fst (body c g cl r fls)) (snd (body c g cl r fls)).
+Proof.
+  intros g cl r fls H. destruct cl; cbn [body]; try exact H.
+  - (* Begin *) destruct H as [H1 H2]. destruct (canceler r) as [i|] eqn:Ec.
+    + cbn [fst snd]. split; cbn [canceler]; [exact H1|]. intros f fl Hn Hu. now apply H2 with fl.
+    + destruct (with_flusher c); cbn [fst snd]; split; cbn [canceler].
+      * intros i E; inversion E; subst i. exists (mkF FWait false). split; [|reflexivity].
+        rewrite nth_error_snoc, Nat.ltb_irrefl, Nat.eqb_refl. reflexivity.
+      * intros f fl Hn Hu. rewrite nth_error_snoc in Hn.
+        destruct (Nat.ltb f (length fls)).
+        -- pose proof (H2 _ _ Hn Hu). congruence.
+        -- destruct (Nat.eqb_spec f (length fls)); [congruence|discriminate].
+      * discriminate.
+      * intros f fl Hn Hu. pose proof (H2 _ _ Hn Hu). congruence.
+  - (* End *) destruct (with_flusher c); cbn [fst snd]; exact H.
+  - (* EndTest *) apply CanOk_reset. destruct (stamped r); exact H.
+  - (* Reset *) apply CanOk_reset. exact H.
+Qed.
+
+Record InvFl (s : state) : Prop := {
+  can_ok : CanOk (rc s) (flushers s);
+  chk_unc : forall f fl, nth_error (flushers s) f = Some fl ->
+            f_pc fl = FChecked \/ f_pc fl = FPersisted -> f_cancelled fl = false;
+  can_c : forall f fl, nth_error (flushers s) f = Some fl ->
+          f_pc fl = FCancelled \/ f_pc fl = FDone -> f_cancelled fl = true
+}.
+
+Lemma InvFl_init : forall progs, InvFl (init progs).
+Proof.
+  intros progs. constructor; cbn [init rc flushers].
+  - split; [discriminate|]. intros f fl Hn; destruct f; discriminate.
+  - intros f fl Hn; destruct f; discriminate.
+  - intros f fl Hn; destruct f; discriminate.
+Qed.
+
+(* a flusher step that keeps the cancelled flag and the canceler *)
+Lemma CanOk_upd : forall r r' fls f pc pc' b,
+  nth_error fls f = Some (mkF pc b) -> canceler r' = canceler r ->
+  CanOk r fls -> CanOk r' (upd f (mkF pc' b) fls).
+Proof.
+  intros r r' fls f pc pc' b Hn Hr [H1 H2]. split; rewrite Hr.
+  - intros i Ei. destruct (H1 _ Ei) as [fl [Hfl Hu]]. nu.
+    destruct (Nat.eqb_spec f i) as [->|Hne]; [|eauto].
+    rewrite Hn in *. inversion Hfl; subst. eexists; split; [reflexivity|exact Hu].
+  - intros f' fl. nu. destruct (Nat.eqb_spec f f') as [->|Hne]; [|apply H2].
+    rewrite Hn. intros E Hu; inversion E; subst. now apply H2 with (mkF pc b).
+Qed.
+
+Lemma InvFl_step : forall s t s', InvMu s -> InvFl s -> Step c s t s' -> InvFl s'.
+Proof.
+  intros s t s' IM I HS.
+  destruct HS as [g cl rest Hn Hm|g cl rest Hn|g cl rest Hn|f b Hn|f Hn|f b Hn Hm|f b Hn|f b Hn|f b Hn|f b Hn];
+    constructor; cbn [rc flushers];
+    try exact (can_ok _ I); try exact (chk_unc _ I); try exact (can_c _ I);
+    try (eapply CanOk_upd; [exact Hn|reflexivity|exact (can_ok _ I)]).
+  (* ---- UBody ---- *)
+  - apply CanOk_body, (can_ok _ I).
+  - pose proof (u_mu _ IM _ _ Hn eq_refl) as Hmu. intros f fl' Hn' Hpc.
+    destruct (body_fls_back _ _ _ _ _ _ _ Hn') as [[fl [Hfl [Epc _]]]|[-> _]].
+    + assert (Hh : f_holds (f_pc fl) = true) by (rewrite <- Epc; destruct Hpc as [-> | ->]; reflexivity).
+      pose proof (f_mu _ IM _ _ Hfl Hh). congruence.
+    + reflexivity.
+  - pose proof (u_mu _ IM _ _ Hn eq_refl) as Hmu. intros f fl' Hn' Hpc.
+    destruct (body_fls_back _ _ _ _ _ _ _ Hn') as [[fl [Hfl [Epc Hcc]]]|[-> _]].
+    + apply Hcc. apply (can_c _ I _ _ Hfl). now rewrite <- Epc.
+    + cbn in Hpc. destruct Hpc; discriminate.
+  (* ---- Tick ---- *)
+  - intros f' fl. nu. destruct (Nat.eqb_spec f f') as [->|Hne]; [|apply (chk_unc _ I)].
+    rewrite Hn. intros E [Hp|Hp]; inversion E; subst; discriminate.
+  - intros f' fl. nu. destruct (Nat.eqb_spec f f') as [->|Hne]; [|apply (can_c _ I)].
+    rewrite Hn. intros E [Hp|Hp]; inversion E; subst; discriminate.
+  (* ---- Done arm ---- *)
+  - intros f' fl. nu. destruct (Nat.eqb_spec f f') as [->|Hne]; [|apply (chk_unc _ I)].
+    rewrite Hn. intros E [Hp|Hp]; inversion E; subst; discriminate.
+  - intros f' fl. nu. destruct (Nat.eqb_spec f f') as [->|Hne]; [|apply (can_c _ I)].
+    rewrite Hn. intros E _; inversion E; subst; reflexivity.
+  (* ---- FLock ---- *)
+  - intros f' fl. nu. destruct (Nat.eqb_spec f f') as [->|Hne]; [|apply (chk_unc _ I)].
+    rewrite Hn. intros E [Hp|Hp]; inversion E; subst; discriminate.
+  - intros f' fl. nu. destruct (Nat.eqb_spec f f') as [->|Hne]; [|apply (can_c _ I)].
+    rewrite Hn. intros E [Hp|Hp]; inversion E; subst; discriminate.
+  (* ---- FCheck ---- *)
+  - intros f' fl. nu. destruct (Nat.eqb_spec f f') as [->|Hne]; [|apply (chk_unc _ I)].
+    rewrite Hn. intros E [Hp|Hp]; inversion E; subst; destruct b; try discriminate; reflexivity.
+  - intros f' fl. nu. destruct (Nat.eqb_spec f f') as [->|Hne]; [|apply (can_c _ I)].
+    rewrite Hn. intros E [Hp|Hp]; inversion E; subst; destruct b; try discriminate; reflexivity.
+  (* ---- FCancelRet ---- *)
+  - intros f' fl. nu. destruct (Nat.eqb_spec f f') as [->|Hne]; [|apply (chk_unc _ I)].
+    rewrite Hn. intros E [Hp|Hp]; inversion E; subst; discriminate.
+  - intros f' fl. nu. destruct (Nat.eqb_spec f f') as [->|Hne]; [|apply (can_c _ I)].
+    rewrite Hn. intros E _; inversion E; subst. cbn. apply (can_c _ I _ _ Hn). now left.
+  (* ---- FPersist ---- *)
+  - intros f' fl. nu. destruct (Nat.eqb_spec f f') as [->|Hne]; [|apply (chk_unc _ I)].
+    rewrite Hn. intros E _; inversion E; subst. cbn. apply (chk_unc _ I _ _ Hn). now left.
+  - intros f' fl. nu. destruct (Nat.eqb_spec f f') as [->|Hne]; [|apply (can_c _ I)].
+    rewrite Hn. intros E [Hp|Hp]; inversion E; subst; discriminate.
+  (* ---- FUnlock ---- *)
+  - intros f' fl. nu. destruct (Nat.eqb_spec f f') as [->|Hne]; [|apply (chk_unc _ I)].
+    rewrite Hn. intros E [Hp|Hp]; inversion E; subst; discriminate.
+  - intros f' fl. nu. destruct (Nat.eqb_spec f f') as [->|Hne]; [|apply (can_c _ I)].
+    rewrite Hn. intros E [Hp|Hp]; inversion E; subst; discriminate.
+Qed.
+
+(* ====================================================================== *)
+(* Invariant, part 3: the counter is the sum of the increments issued       *)
+(* ====================================================================== *)
+(* the acquisitions whose body has been executed: all but the newest one while its
+   owner has not yet run its body *)
+Definition applied_log (s : state) : list call :=
+  match mu s with
+  | Some (OU g) =>
+      match nth_error (users s) g with
+      | Some u => match u_pc u with UCrit => tl (lock_log s) | _ => lock_log s end
+      | None => lock_log s
+      end
+  | _ => lock_log s
+  end.
+
+Record InvSum (s : state) : Prop := {
+  sum_ok : ops (rc s) = wrap64 (sumZ (cycle_incs (applied_log s)));
+  stamp_ok : stamped (rc s) = cycle_stamped (applied_log s);
+  can_stamp : forall i, canceler (rc s) = Some i -> cycle_stamped (applied_log s) = true;
+  log_hd : forall g cl rest, nth_error (users s) g = Some (mkU UCrit (cl :: rest)) ->
+           exists l, lock_log s = cl :: l
+}.
+
+Lemma InvSum_init : forall progs, InvSum (init progs).
+Proof.
+  intros progs. constructor.
+  - reflexivity.
+  - reflexivity.
+  - discriminate.
+  - intros g cl rest Hn. apply nth_error_In, in_map_iff in Hn. destruct Hn as [p [E _]]. discriminate.
+Qed.
+
+Lemma body_stamped : forall g cl r fls l,
+  stamped r = cycle_stamped l -> (forall i, canceler r = Some i -> cycle_stamped l = true) ->
+  stamped (fst (body c g cl r fls)) = cycle_stamped (cl :: l) /\
+  (forall i, canceler (fst (body c g cl r fls)) = Some i -> cycle_stamped (cl :: l) = true).
+Proof.
+  intros g cl r fls l H1 H2. destruct cl; cbn [body fst cycle_stamped].
+  - split; [exact H1|exact H2].
+  - destruct (canceler r); [|destruct (with_flusher c)]; cbn [fst stamped]; auto.
+  - destruct (with_flusher c); cbn [fst stamped persist]; auto.
+  - split; [exact H1|exact H2].
+  - unfold do_reset; cbn [fst stamped canceler]. split; [reflexivity|discriminate].
+  - unfold do_reset; cbn [fst stamped canceler]. split; [reflexivity|discriminate].
+Qed.
+
+Lemma body_ops : forall g cl r fls l,
+  ops r = wrap64 (sumZ (cycle_incs l)) ->
+  ops (fst (body c g cl r fls)) = wrap64 (sumZ (cycle_incs (cl :: l))).
+Proof.
+  intros g cl r fls l H. destruct cl; cbn [body fst cycle_incs sumZ fold_right]; try exact H.
+  - cbn [ops]. rewrite H, wrap64_add_l. f_equal. unfold sumZ. lia.
+  - destruct (canceler r); [exact H|]. destruct (with_flusher c); exact H.
+  - destruct (with_flusher c); exact H.
+  - reflexivity.
+  - reflexivity.
+Qed.
+
+Lemma InvSum_transfer : forall s s',
+  applied_log s' = applied_log s -> ops (rc s') = ops (rc s) -> stamped (rc s') = stamped (rc s) ->
+  canceler (rc s') = canceler (rc s) -> lock_log s' = lock_log s ->
+  (forall g cl rest, nth_error (users s') g = Some (mkU UCrit (cl :: rest)) ->
+                     nth_error (users s) g = Some (mkU UCrit (cl :: rest))) ->
+  InvSum s -> InvSum s'.
+Proof.
+  intros s s' Ea Eo Es Ec El Hu I. constructor.
+  - rewrite Eo, Ea. exact (sum_ok _ I).
+  - rewrite Es, Ea. exact (stamp_ok _ I).
+  - rewrite Ec, Ea. exact (can_stamp _ I).
+  - intros g cl rest Hn. rewrite El. exact (log_hd _ I _ _ _ (Hu _ _ _ Hn)).
+Qed.
+
+Lemma InvSum_step : forall s t s', InvMu s -> InvFl s -> InvSum s -> Step c s t s' -> InvSum s'.
+Proof.
+  intros s t s' IM IF I HS.
+  assert (Hfl : forall f fl, nth_error (flushers s) f = Some fl -> f_holds (f_pc fl) = true ->
+                 applied_log s = lock_log s).
+  { intros f fl Hn Hh. unfold applied_log. now rewrite (f_mu _ IM _ _ Hn Hh). }
+  assert (Hfree : mu s = None -> applied_log s = lock_log s).
+  { intros E. unfold applied_log. now rewrite E. }
+  destruct HS as [g cl rest Hn Hm|g cl rest Hn|g cl rest Hn|f b Hn|f Hn|f b Hn Hm|f b Hn|f b Hn|f b Hn|f b Hn];
+    try rewrite Hc;
+    try (apply InvSum_transfer with s; auto; fail).
+  (* ---- ULock ---- *)
+  - assert (Ea : applied_log (mkSt (upd g (mkU UCrit (cl :: rest)) (users s)) (flushers s) (Some (OU g)) (rc s)
+                                   (cl :: lock_log s)) = applied_log s).
+    { unfold applied_log at 1; cbn [mu users lock_log]. nu. rewrite Nat.eqb_refl, Hn. cbn [u_pc tl].
+      now rewrite Hfree. }
+    constructor; cbn [rc]; try rewrite Ea.
+    + exact (sum_ok _ I).
+    + exact (stamp_ok _ I).
+    + exact (can_stamp _ I).
+    + cbn [users lock_log]. intros g' cl' rest'. nu. destruct (Nat.eqb_spec g g') as [->|Hne].
+      * rewrite Hn. intros E; inversion E; subst. eauto.
+      * intros Hn'. pose proof (u_mu _ IM _ _ Hn' eq_refl). congruence.
+  (* ---- UBody ---- *)
+  - pose proof (u_mu _ IM _ _ Hn eq_refl) as Hmu. destruct (log_hd _ I _ _ _ Hn) as [l Hl].
+    assert (Ea : applied_log s = l).
+    { unfold applied_log. rewrite Hmu, Hn. cbn [u_pc]. now rewrite Hl. }
+    assert (Ea' : applied_log (mkSt (upd g (mkU UUnlock (cl :: rest)) (users s))
+                    (snd (body c g cl (rc s) (flushers s))) (mu s)
+                    (fst (body c g cl (rc s) (flushers s))) (lock_log s)) = cl :: l).
+    { unfold applied_log; cbn [mu users lock_log]. rewrite Hmu. nu. rewrite Nat.eqb_refl, Hn. cbn [u_pc].
+      exact Hl. }
+    pose proof (sum_ok _ I) as Hs. pose proof (stamp_ok _ I) as Hst. pose proof (can_stamp _ I) as Hcs.
+    rewrite Ea in Hs, Hst, Hcs.
+    destruct (body_stamped g cl (rc s) (flushers s) l Hst Hcs) as [B1 B2].
+    constructor; cbn [rc]; try rewrite Ea'.
+    + now apply body_ops.
+    + exact B1.
+    + exact B2.
+    + cbn [users lock_log]. intros g' cl' rest'. nu. destruct (Nat.eqb_spec g g') as [->|Hne].
+      * rewrite Hn. intros E; inversion E.
+      * intros Hn'. pose proof (u_mu _ IM _ _ Hn' eq_refl). congruence.
+  (* ---- UUnlock ---- *)
+  - pose proof (u_mu _ IM _ _ Hn eq_refl) as Hmu.
+    apply InvSum_transfer with s; auto.
+    + unfold applied_log; cbn [mu lock_log]. rewrite Hmu, Hn. reflexivity.
+    + cbn [users]. intros g' cl' rest'. nu. destruct (Nat.eqb_spec g g') as [->|Hne]; [|auto].
+      rewrite Hn. intros E; inversion E.
+  (* ---- FLock ---- *)
+  - apply InvSum_transfer with s; auto. unfold applied_log at 1; cbn [mu lock_log]. now rewrite Hfree.
+  (* ---- FCancelRet ---- *)
+  - apply InvSum_transfer with s; auto. unfold applied_log at 1; cbn [mu lock_log].
+    now rewrite (Hfl _ _ Hn eq_refl).
+  (* ---- FPersist ---- *)
+  - pose proof (chk_unc _ IF _ _ Hn (or_introl eq_refl)) as Hb. cbn in Hb. subst b.
+    destruct (can_ok _ IF) as [_ H2]. pose proof (H2 _ _ Hn eq_refl) as Hcan.
+    pose proof (can_stamp _ I _ Hcan) as Hst.
+    assert (Ea : applied_log (mkSt (users s) (upd f (mkF FPersisted false) (flushers s)) (mu s)
+                   (persist (OF f) (stamp (rc s))) (lock_log s)) = applied_log s) by reflexivity.
+    constructor; cbn [rc]; try rewrite Ea.
+    + exact (sum_ok _ I).
+    + cbn. now rewrite Hst.
+    + exact (can_stamp _ I).
+    + exact (log_hd _ I).
+  (* ---- FUnlock ---- *)
+  - apply InvSum_transfer with s; auto. unfold applied_log at 1; cbn [mu lock_log].
+    now rewrite (Hfl _ _ Hn eq_refl).
+Qed.
+
+(* ====================================================================== *)
+(* The invariant holds in every reachable state                             *)
+(* ====================================================================== *)
+Definition Inv (s : state) : Prop := InvMu s /\ InvFl s /\ InvSum s.
+
+Lemma Inv_init : forall progs, Inv (init progs).
+Proof. intros; split; [apply InvMu_init|split; [apply InvFl_init|apply InvSum_init]]. Qed.
+
+Lemma Inv_step : forall s t s', Inv s -> step c s t = Some s' -> Inv s'.
+Proof.
+  intros s t s' [IM [IF IS]] H. apply step_Step in H. split; [|split].
+  - eapply InvMu_step; eauto.
+  - eapply InvFl_step; eauto.
+  - eapply InvSum_step; eauto.
+Qed.
+
+Lemma Inv_run : forall sched s s', Inv s -> run c s sched = Some s' -> Inv s'.
+Proof.
+  induction sched as [|t r IH]; intros s s' I H; cbn [run] in H.
+  - now inversion H; subst.
+  - destruct (step c s t) as [s1|] eqn:E; [|discriminate]. eapply IH; [|exact H]. eapply Inv_step; eauto.
+Qed.
+
+Lemma Inv_reachable : forall s, reachable c s -> Inv s.
+Proof. intros s [progs [sched H]]. eapply Inv_run; [apply Inv_init|exact H]. Qed.
+
+Lemma run_app : forall c0 a b s, run c0 s (a ++ b) = match run c0 s a with Some s1 => run c0 s1 b | None => None end.
+Proof.
+  intros c0 a. induction a as [|t a IH]; intros b s; cbn [run app]; [reflexivity|].
+  destruct (step c0 s t); [apply IH|reflexivity].
+Qed.
+
+Lemma reachable_run : forall s sched s', reachable c s -> run c s sched = Some s' -> reachable c s'.
+Proof.
+  intros s sched s' [progs [sc H]] H2. exists progs, (sc ++ sched). now rewrite run_app, H.
+Qed.
+
+(* ====================================================================== *)
+(* C16_lock_invariant                                                       *)
+(* ====================================================================== *)
+Definition owner_in_cs (s : state) (o : owner) : Prop :=
+  match o with
+  | OU g => exists u, nth_error (users s) g = Some u /\ u_holds (u_pc u) = true /\ u_prog u <> []
+  | OF f => exists fl, nth_error (flushers s) f = Some fl /\ f_holds (f_pc fl) = true
+  end.
+
+Lemma Step_step : forall c0 s t s', Step c0 s t s' -> step c0 s t = Some s'.
+Proof.
+  intros c0 s t s' H. destruct H; cbn [step];
+    repeat match goal with H : nth_error _ _ = Some _ |- _ => rewrite H; clear H end;
+    cbn [u_prog u_pc f_pc f_cancelled set_fl];
+    repeat match goal with H : mu _ = None |- _ => rewrite H; clear H end; reflexivity.
+Qed.
+
+Lemma run_cons_Step : forall c0 s t s1 r s2,
+  Step c0 s t s1 -> run c0 s1 r = Some s2 -> run c0 s (t :: r) = Some s2.
+Proof. intros c0 s t s1 r s2 H1 H2. cbn [run]. now rewrite (Step_step _ _ _ _ H1). Qed.
+
+Lemma upd_hit : forall {A} (l : list A) n x y, nth_error l n = Some y -> nth_error (upd n x l) n = Some x.
+Proof. intros A l n x y H. now rewrite nth_error_upd, Nat.eqb_refl, H. Qed.
+
+(* the owner alone, whatever the others do or do not do, reaches Unlock in at most three
+   of its own steps; nothing but the flusher table / the owner's pc changes on the way *)
+Lemma owner_releases : forall s o, Inv s -> mu s = Some o ->
+  owner_in_cs s o /\
+  exists n s', (1 <= n <= 3)%nat /\ run c s (repeat (tid_of o) n) = Some s' /\ mu s' = None /\
+               (forall f, o = OF f -> users s' = users s).
+Proof.
+  intros s o [IM [IF IS]] Hm. destruct o as [g|f]; cbn [owner_in_cs tid_of].
+  - destruct (mu_u _ IM _ Hm) as [[pc prog] [Hn [Hh Hp]]]. cbn [u_pc u_prog] in *.
+    split; [eexists; repeat split; eauto|].
+    destruct prog as [|cl rest]; [congruence|]. destruct pc; [discriminate| |].
+    + exists 2%nat. eexists. split; [lia|]. split; [|split].
+      * cbn [repeat]. eapply run_cons_Step; [apply SUBody; exact Hn|].
+        eapply run_cons_Step; [|reflexivity]. eapply SUUnl. cbn [users]. eapply upd_hit; exact Hn.
+      * reflexivity.
+      * discriminate.
+    + exists 1%nat. eexists. split; [lia|]. split; [|split].
+      * cbn [repeat]. eapply run_cons_Step; [eapply SUUnl; exact Hn|reflexivity].
+      * reflexivity.
+      * discriminate.
+  - destruct (mu_f _ IM _ Hm) as [[pc b] [Hn Hh]]. cbn [f_pc] in *.
+    split; [eexists; split; eauto|].
+    destruct pc; try discriminate.
+    + (* FLocked *) destruct b.
+      * exists 2%nat. eexists. split; [lia|]. split; [|split].
+        -- cbn [repeat]. eapply run_cons_Step; [apply SFCheck; exact Hn|].
+           eapply run_cons_Step; [|reflexivity]. eapply SFCancelRet. cbn [flushers]. eapply upd_hit; exact Hn.
+        -- cbn [mu]. now rewrite Hc.
+        -- reflexivity.
+      * exists 3%nat. eexists. split; [lia|]. split; [|split].
+        -- cbn [repeat]. eapply run_cons_Step; [apply SFCheck; exact Hn|].
+           eapply run_cons_Step; [eapply SFPersist; cbn [flushers]; eapply upd_hit; exact Hn|].
+           eapply run_cons_Step; [|reflexivity]. eapply SFUnl. cbn [flushers].
+           eapply upd_hit. eapply upd_hit. exact Hn.
+        -- reflexivity.
+        -- reflexivity.
+    + (* FCancelled *) exists 1%nat. eexists. split; [lia|]. split; [|split].
+      * cbn [repeat]. eapply run_cons_Step; [eapply SFCancelRet; exact Hn|reflexivity].
+      * cbn [mu]. now rewrite Hc.
+      * reflexivity.
+    + (* FChecked *) exists 2%nat. eexists. split; [lia|]. split; [|split].
+      * cbn [repeat]. eapply run_cons_Step; [eapply SFPersist; exact Hn|].
+        eapply run_cons_Step; [|reflexivity]. eapply SFUnl. cbn [flushers]. eapply upd_hit; exact Hn.
+      * reflexivity.
+      * reflexivity.
+    + (* FPersisted *) exists 1%nat. eexists. split; [lia|]. split; [|split].
+      * cbn [repeat]. eapply run_cons_Step; [eapply SFUnl; exact Hn|reflexivity].
+      * reflexivity.
+      * reflexivity.
+Qed.
+
+(* ====================================================================== *)
+(* C16_no_deadlock                                                          *)
+(* ====================================================================== *)
+Lemma not_all_returned : forall s, ~ all_user_calls_returned s ->
+  exists g pc cl rest, nth_error (users s) g = Some (mkU pc (cl :: rest)).
+Proof.
+  intros s. unfold all_user_calls_returned. induction (users s) as [|[pc prog] l IH]; intros H.
+  - exfalso. apply H. constructor.
+  - destruct prog as [|cl rest].
+    + destruct IH as [g [pc' [cl [rest Hn]]]].
+      * intros HF. apply H. constructor; [reflexivity|exact HF].
+      * exists (S g), pc', cl, rest. exact Hn.
+    + exists O, pc, cl, rest. reflexivity.
+Qed.
+
+Lemma idle_user_enabled : forall s g cl rest, InvMu s -> mu s = None ->
+  forall pc, nth_error (users s) g = Some (mkU pc (cl :: rest)) -> step c s (U g) <> None.
+Proof.
+  intros s g cl rest IM Hm pc Hn. destruct pc.
+  - cbn [step]. rewrite Hn. cbn [u_prog u_pc]. rewrite Hm. discriminate.
+  - pose proof (u_mu _ IM _ _ Hn eq_refl). congruence.
+  - pose proof (u_mu _ IM _ _ Hn eq_refl). congruence.
+Qed.
+
+Lemma progress : forall s, Inv s -> ~ all_user_calls_returned s ->
+  (exists g, step c s (U g) <> None) \/
+  (exists f n s', mu s = Some (OF f) /\ (1 <= n <= 3)%nat /\ run c s (repeat (F f) n) = Some s' /\
+                  mu s' = None /\ exists g, step c s' (U g) <> None).
+Proof.
+  intros s I Hnr. destruct (not_all_returned _ Hnr) as [g [pc [cl [rest Hn]]]].
+  destruct (mu s) as [[g'|f]|] eqn:Hm.
+  - left. destruct (owner_releases _ _ I Hm) as [_ [n [s' [Hn' [Hr _]]]]]. exists g'.
+    destruct n as [|n]; [lia|]. cbn [repeat run tid_of] in Hr. intros E. now rewrite E in Hr.
+  - right. destruct (owner_releases _ _ I Hm) as [_ [n [s' [Hn' [Hr [Hm' Hu]]]]]].
+    exists f, n, s'. repeat split; try lia; try assumption.
+    exists g. pose proof (Inv_run _ _ _ I Hr) as [IM' _].
+    apply idle_user_enabled with cl rest pc; auto. rewrite (Hu f eq_refl). exact Hn.
+  - left. exists g. destruct I as [IM _]. eapply idle_user_enabled; eauto.
+Qed.
+
+(* ====================================================================== *)
+(* C16_one_flusher                                                          *)
+(* ====================================================================== *)
+Lemma filter_le1 : forall {A} (p : A -> bool) (l : list A),
+  (forall i j x y, nth_error l i = Some x -> nth_error l j = Some y -> p x = true -> p y = true -> i = j) ->
+  (length (filter p l) <= 1)%nat.
+Proof.
+  intros A p l. induction l as [|a l IH]; intros H; cbn [filter length]; [lia|].
+  destruct (p a) eqn:Ea.
+  - assert (Hnil : filter p l = []).
+    { clear IH. assert (Hall : forall y, In y l -> p y = false).
+      { intros y Hy. destruct (In_nth_error _ _ Hy) as [j Hj]. destruct (p y) eqn:Ey; [|reflexivity].
+        exfalso. specialize (H O (S j) a y eq_refl Hj Ea Ey). discriminate. }
+      induction l as [|b l IHl]; [reflexivity|]. cbn [filter]. rewrite (Hall b (or_introl eq_refl)).
+      apply IHl.
+      - intros i j x y Hi Hj. destruct i, j; cbn in *; try (apply H with (i := O) (j := O)); auto.
+        + intros Hx Hy. inversion Hi; subst. specialize (H O (S (S j)) x y eq_refl Hj Hx Hy). discriminate.
+        + intros Hx Hy. inversion Hj; subst. specialize (H (S (S i)) O x y Hi eq_refl Hx Hy). discriminate.
+        + intros Hx Hy. specialize (H (S (S i)) (S (S j)) x y Hi Hj Hx Hy). lia.
+      - intros y Hy. apply Hall. now right. }
+    rewrite Hnil. cbn. lia.
+  - apply IH. intros i j x y Hi Hj Hx Hy. specialize (H (S i) (S j) x y Hi Hj Hx Hy). lia.
+Qed.
+
+Lemma filter_none : forall {A} (p : A -> bool) (l : list A),
+  (forall x, In x l -> p x = false) -> filter p l = [].
+Proof.
+  intros A p l. induction l as [|a l IH]; intros H; [reflexivity|]. cbn [filter].
+  rewrite (H a (or_introl eq_refl)). apply IH. intros x Hx. apply H. now right.
+Qed.
+
+Lemma at_most_one_uncancelled : forall s, Inv s -> (uncancelled s <= 1)%nat.
+Proof.
+  intros s [_ [IF _]]. unfold uncancelled. apply filter_le1.
+  intros i j x y Hi Hj Hx Hy. destruct (can_ok _ IF) as [_ H2].
+  apply negb_true_iff in Hx, Hy. pose proof (H2 _ _ Hi Hx). pose proof (H2 _ _ Hj Hy). congruence.
+Qed.
+
+Lemma uncancelled_is_canceler : forall s f fl, Inv s ->
+  nth_error (flushers s) f = Some fl -> f_cancelled fl = false -> canceler (rc s) = Some f.
+Proof. intros s f fl [_ [IF _]] Hn Hu. destruct (can_ok _ IF) as [_ H2]. eauto. Qed.
+
+Lemma no_canceler_all_cancelled : forall s, Inv s -> canceler (rc s) = None ->
+  uncancelled s = O /\ forall f fl, nth_error (flushers s) f = Some fl -> f_cancelled fl = true.
+Proof.
+  intros s [_ [IF _]] Hcn. destruct (can_ok _ IF) as [_ H2].
+  assert (Hall : forall f fl, nth_error (flushers s) f = Some fl -> f_cancelled fl = true).
+  { intros f fl Hn. destruct (f_cancelled fl) eqn:E; [reflexivity|]. pose proof (H2 _ _ Hn E). congruence. }
+  split; [|exact Hall]. unfold uncancelled. rewrite filter_none; [reflexivity|].
+  intros x Hx. destruct (In_nth_error _ _ Hx) as [f Hf]. now rewrite (Hall _ _ Hf).
+Qed.
+
+(* the body of EndTest / Reset clears the canceler *)
+Lemma reset_body_clears : forall g cl r fls, cl = EndTest \/ cl = Reset ->
+  canceler (fst (body c g cl r fls)) = None.
+Proof. intros g cl r fls [-> | ->]; reflexivity. Qed.
+
+Definition samples_of (f : nat) (r : recst) : list sample :=
+  filter (fun x => match s_by x with OF f' => Nat.eqb f f' | OU _ => false end) (persisted r).
+
+Lemma body_persisted : forall g cl r fls,
+  persisted (fst (body c g cl r fls)) = persisted r \/
+  exists x, s_by x = OU g /\ persisted (fst (body c g cl r fls)) = persisted r ++ [x].
+Proof.
+  intros g cl r fls. destruct cl; cbn [body fst]; auto.
+  - destruct (canceler r); [|destruct (with_flusher c)]; auto.
+  - destruct (with_flusher c); cbn [fst persist persisted]; [auto|]. right. eexists; split; [|reflexivity]. reflexivity.
+  - unfold do_reset; cbn [fst persisted]. destruct (stamped r); cbn [persist persisted]; [|auto].
+    right. eexists; split; [|reflexivity]. reflexivity.
+Qed.
+
+(* one step: a flusher whose context is cancelled adds no sample, and stays cancelled *)
+Lemma cancelled_step : forall s t s' f fl, Inv s -> step c s t = Some s' ->
+  nth_error (flushers s) f = Some fl -> f_cancelled fl = true ->
+  samples_of f (rc s') = samples_of f (rc s) /\
+  (t = F f \/ t = Tick f -> persisted (rc s') = persisted (rc s)) /\
+  exists fl', nth_error (flushers s') f = Some fl' /\ f_cancelled fl' = true /\
+    (t = F f \/ t = Tick f -> (f_rank (f_pc fl') < f_rank (f_pc fl))%nat).
+Proof.
+  intros s t s' f fl [IM [IF IS]] H Hn Hcf. apply step_Step in H.
+  assert (Hchk : forall b, nth_error (flushers s) f = Some (mkF FChecked b) -> False).
+  { intros b E. pose proof (chk_unc _ IF _ _ E (or_introl eq_refl)) as Hb. cbn in Hb. subst b.
+    rewrite E in Hn; inversion Hn; subst. discriminate. }
+  assert (Hper : forall b, nth_error (flushers s) f = Some (mkF FPersisted b) -> False).
+  { intros b E. pose proof (chk_unc _ IF _ _ E (or_intror eq_refl)) as Hb. cbn in Hb. subst b.
+    rewrite E in Hn; inversion Hn; subst. discriminate. }
+  destruct H as [g cl rest Hn' Hm|g cl rest Hn'|g cl rest Hn'|f' b Hn'|f' Hn'|f' b Hn' Hm|f' b Hn'|f' b Hn'|f' b Hn'|f' b Hn'];
+    cbn [rc flushers]; try rewrite Hc.
+  - repeat split; try reflexivity. exists fl. repeat split; auto. intros [E|E]; discriminate.
+  - split; [|split].
+    + unfold samples_of. destruct (body_persisted g cl (rc s) (flushers s)) as [->|[x [Hx ->]]]; [reflexivity|].
+      rewrite filter_app. cbn [filter]. rewrite Hx. now rewrite app_nil_r.
+    + intros [E|E]; discriminate.
+    + destruct (body_fls_fwd c g cl (rc s) _ _ _ Hn) as [fl' [Hfl' [_ Hcc]]].
+      exists fl'. repeat split; auto. intros [E|E]; discriminate.
+  - repeat split; try reflexivity. exists fl. repeat split; auto. intros [E|E]; discriminate.
+  - repeat split; try reflexivity. nu. destruct (Nat.eqb_spec f' f) as [->|Hne].
+    + rewrite Hn' in *. inversion Hn; subst. cbn in Hcf; subst b. eexists; repeat split. intros _; cbn; lia.
+    + exists fl. repeat split; auto. intros [E|E]; inversion E; congruence.
+  - repeat split; try reflexivity. nu. destruct (Nat.eqb_spec f' f) as [->|Hne].
+    + rewrite Hn' in *. inversion Hn; subst. eexists; repeat split. intros _; cbn; lia.
+    + exists fl. repeat split; auto. intros [E|E]; inversion E; congruence.
+  - repeat split; try reflexivity. nu. destruct (Nat.eqb_spec f' f) as [->|Hne].
+    + rewrite Hn' in *. inversion Hn; subst. cbn in Hcf; subst b. eexists; repeat split. intros _; cbn; lia.
+    + exists fl. repeat split; auto. intros [E|E]; inversion E; congruence.
+  - repeat split; try reflexivity. nu. destruct (Nat.eqb_spec f' f) as [->|Hne].
+    + rewrite Hn' in *. inversion Hn; subst. cbn in Hcf; subst b. eexists; repeat split. intros _; cbn; lia.
+    + exists fl. repeat split; auto. intros [E|E]; inversion E; congruence.
+  - repeat split; try reflexivity. nu. destruct (Nat.eqb_spec f' f) as [->|Hne].
+    + rewrite Hn' in *. inversion Hn; subst. cbn in Hcf; subst b. eexists; repeat split. intros _; cbn; lia.
+    + exists fl. repeat split; auto. intros [E|E]; inversion E; congruence.
+  - destruct (Nat.eqb_spec f' f) as [->|Hne]; [exfalso; eauto|].
+    split; [|split].
+    + unfold samples_of. cbn [persist stamp persisted]. rewrite filter_app. cbn [filter s_by].
+      apply Nat.eqb_neq in Hne. rewrite Nat.eqb_sym in Hne. rewrite Hne. now rewrite app_nil_r.
+    + intros [E|E]; inversion E; congruence.
+    + nu. apply Nat.eqb_neq in Hne. rewrite Hne. exists fl. repeat split; auto.
+      apply Nat.eqb_neq in Hne. intros [E|E]; inversion E; congruence.
+  - destruct (Nat.eqb_spec f' f) as [->|Hne]; [exfalso; eauto|].
+    repeat split; try reflexivity. nu. apply Nat.eqb_neq in Hne. rewrite Hne. exists fl. repeat split; auto.
+    apply Nat.eqb_neq in Hne. intros [E|E]; inversion E; congruence.
+Qed.
+
+(* ... hence along every schedule from that moment on *)
+Lemma cancelled_never_persists : forall sched s s' f fl, Inv s -> run c s sched = Some s' ->
+  nth_error (flushers s) f = Some fl -> f_cancelled fl = true ->
+  samples_of f (rc s') = samples_of f (rc s) /\
+  exists fl', nth_error (flushers s') f = Some fl' /\ f_cancelled fl' = true.
+Proof.
+  induction sched as [|t r IH]; intros s s' f fl I H Hn Hcf; cbn [run] in H.
+  - inversion H; subst. eauto.
+  - destruct (step c s t) as [s1|] eqn:E; [|discriminate].
+    destruct (cancelled_step _ _ _ _ _ I E Hn Hcf) as [Hs [_ [fl1 [Hn1 [Hc1 _]]]]].
+    destruct (IH _ _ _ _ (Inv_step _ _ _ I E) H Hn1 Hc1) as [Hs' Hfl']. split; [congruence|exact Hfl'].
+Qed.
+
+(* ====================================================================== *)
+(* C16_sum                                                                  *)
+(* ====================================================================== *)
+Lemma endtest_persists_sum : forall s g rest s', Inv s ->
+  nth_error (users s) g = Some (mkU UCrit (EndTest :: rest)) ->
+  step c s (U g) = Some s' ->
+  exists l, lock_log s = EndTest :: l /\
+    ops (rc s) = wrap64 (sumZ (cycle_incs l)) /\
+    stamped (rc s) = cycle_stamped l /\
+    (cycle_stamped l = true ->
+       persisted (rc s') = persisted (rc s) ++ [mkS (wrap64 (sumZ (cycle_incs l))) (gauge (rc s)) (OU g)]) /\
+    (cycle_stamped l = false -> persisted (rc s') = persisted (rc s)) /\
+    ops (rc s') = 0 /\ canceler (rc s') = None /\ uncancelled s' = O.
+Proof.
+  intros s g rest s' I Hn H. pose proof (Inv_step _ _ _ I H) as I'.
+  destruct I as [IM [IF IS]]. pose proof (u_mu _ IM _ _ Hn eq_refl) as Hmu.
+  destruct (log_hd _ IS _ _ _ Hn) as [l Hl]. exists l. split; [exact Hl|].
+  assert (Ea : applied_log s = l).
+  { unfold applied_log. rewrite Hmu, Hn. cbn [u_pc]. now rewrite Hl. }
+  pose proof (sum_ok _ IS) as Hs. pose proof (stamp_ok _ IS) as Hst. rewrite Ea in Hs, Hst.
+  split; [exact Hs|]. split; [exact Hst|].
+  cbn [step] in H. rewrite Hn in H. cbn [u_prog u_pc] in H. inversion H; subst s'. cbn [rc].
+  assert (Hcn : canceler (fst (body c g EndTest (rc s) (flushers s))) = None) by reflexivity.
+  split; [|split; [|split; [|split]]].
+  - intros E. cbn [body]. rewrite Hst, E. unfold do_reset; cbn [fst persisted persist]. now rewrite Hs.
+  - intros E. cbn [body]. rewrite Hst, E. reflexivity.
+  - reflexivity.
+  - exact Hcn.
+  - apply no_canceler_all_cancelled; [exact I'|exact Hcn].
+Qed.
+
 End Repaired.
+
+(* ====================================================================== *)
+(* Bounded work: every user step consumes one unit of a finite budget       *)
+(* (for either value of the parameter)                                      *)
+(* ====================================================================== *)
+Lemma sum_upd : forall (f : ustate -> nat) l g u x, nth_error l g = Some u ->
+  (fold_right Nat.add O (map f (upd g x l)) + f u = fold_right Nat.add O (map f l) + f x)%nat.
+Proof.
+  intros f l. induction l as [|a l IH]; intros g u x H.
+  - destruct g; discriminate.
+  - destruct g as [|g]; cbn [nth_error] in H.
+    + inversion H; subst. cbn [upd map fold_right]. lia.
+    + cbn [upd map fold_right]. specialize (IH _ _ x H). lia.
+Qed.
+
+Lemma work_step : forall c s t s', Step c s t s' ->
+  (user_work s' + (match t with U _ => 1 | _ => 0 end) = user_work s)%nat.
+Proof.
+  intros c s t s' H. unfold user_work.
+  destruct H as [g cl rest Hn Hm|g cl rest Hn|g cl rest Hn|f b Hn|f Hn|f b Hn Hm|f b Hn|f b Hn|f b Hn|f b Hn];
+    cbn [users]; try lia.
+  - pose proof (sum_upd u_work _ _ _ (mkU UCrit (cl :: rest)) Hn) as E. unfold u_work in E at 2 4.
+    cbn [u_pc u_prog length] in E. lia.
+  - pose proof (sum_upd u_work _ _ _ (mkU UUnlock (cl :: rest)) Hn) as E. unfold u_work in E at 2 4.
+    cbn [u_pc u_prog length] in E. lia.
+  - pose proof (sum_upd u_work _ _ _ (mkU UIdle rest) Hn) as E. unfold u_work in E at 2 4.
+    cbn [u_pc u_prog length] in E. lia.
+Qed.
+
+Lemma bounded_work : forall c sched s s', run c s sched = Some s' ->
+  (user_steps sched + user_work s' = user_work s)%nat.
+Proof.
+  intros c sched. induction sched as [|t r IH]; intros s s' H; cbn [run] in H.
+  - inversion H; subst. reflexivity.
+  - destruct (step c s t) as [s1|] eqn:E; [|discriminate]. specialize (IH _ _ H).
+    pose proof (work_step _ _ _ _ (step_Step _ _ _ _ E)) as W.
+    unfold user_steps in *. cbn [filter]. destruct t; cbn [length]; lia.
+Qed.
+
+Lemma user_work_init : forall progs, user_work (init progs) = (3 * length (concat progs))%nat.
+Proof.
+  intros progs. unfold user_work, init. cbn [users]. induction progs as [|p l IH]; [reflexivity|].
+  cbn [map fold_right concat]. rewrite app_length, IH. unfold u_work. cbn [u_pc u_prog]. lia.
+Qed.
+
+(* ====================================================================== *)
+(* The code before the repair: a reachable state in which nothing can move  *)
+(* ====================================================================== *)
+Definition old_cfg : cfg := mkCfg false true.
+Definition old_progs : list (list call) := [[Begin; EndTest; Inc 1]].
+(* Begin (starts flusher 0); tick; EndTest locks, cancels, unlocks; flusher locks, sees the
+   cancellation, returns with the mutex held *)
+Definition old_sched : list tid := call_steps 0 ++ [Tick 0] ++ call_steps 0 ++ rep 3 (F 0).
+Definition old_stuck : state :=
+  mkSt [mkU UIdle [Inc 1]] [mkF FDone true] (Some (OF 0))
+       (mkR None false false 0 0 [mkS 0 0 (OU 0)]) [EndTest; Begin].
+
+Lemma old_reaches_stuck : run old_cfg (init old_progs) old_sched = Some old_stuck.
+Proof. vm_compute. reflexivity. Qed.
+
+Lemma old_stuck_dead : forall t, step old_cfg old_stuck t = None.
+Proof.
+  intros [g|f|f].
+  - destruct g as [|[|g]]; reflexivity.
+  - destruct f as [|[|f]]; reflexivity.
+  - destruct f as [|[|f]]; reflexivity.
+Qed.
+
+(* ====================================================================== *)
+(* Lock paths                                                               *)
+(* ====================================================================== *)
+Lemma held_eqb_eq : forall a b, held_eqb a b = true <-> a = b.
+Proof. intros [] []; cbn; split; intros H; try reflexivity; try discriminate. Qed.
+
+(* a goroutine executing a balanced path from a state in which it does not hold the mutex
+   gets through every event (never blocks on itself, never unlocks an unlocked mutex) and
+   ends without holding it, its deferred calls included *)
+Lemma balanced_exec : forall p, balanced p = true <-> exec_path Free p = Some Free.
+Proof.
+  intros p. unfold balanced. destruct (exec_path Free p) as [h|].
+  - rewrite held_eqb_eq. split; congruence.
+  - split; discriminate.
+Qed.
+
+(* sequences of balanced paths keep the goroutine at "not held" *)
+Lemma balanced_seq : forall ps, forallb balanced ps = true ->
+  fold_left (fun h p => match h with Some h0 => exec_path h0 p | None => None end) ps (Some Free) = Some Free.
+Proof.
+  induction ps as [|p ps IH]; intros H; [reflexivity|]. cbn [forallb] in H. apply andb_true_iff in H.
+  destruct H as [Hp Hps]. cbn [fold_left]. apply balanced_exec in Hp. rewrite Hp. now apply IH.
+Qed.
+
+(* the lock paths that the goroutines of the transition system follow *)
+Definition user_call_path : list lock_event := [Lock; Unlock].
+Definition flusher_paths (c : cfg) : list (list lock_event) :=
+  [ [];                                                        (* select: Done arm *)
+    [Lock; Unlock];                                            (* tick, lock, persist, unlock *)
+    if flusher_unlocks_on_cancel c then [Lock; Unlock] else [Lock] ].  (* tick, lock, cancelled *)
+
+Lemma model_paths_balanced : forall c,
+  (balanced user_call_path && forallb balanced (flusher_paths c)) = flusher_unlocks_on_cancel c.
+Proof. intros [[] w]; reflexivity. Qed.
+
+(* ====================================================================== *)
+(* Statements over reachable states (used by Props/C16.v)                   *)
+(* ====================================================================== *)
+Section Top.
+Variable c : cfg.
+Hypothesis Hc : flusher_unlocks_on_cancel c = true.
+
+Lemma top_lock_invariant : forall s o, reachable c s -> mu s = Some o ->
+  match o with
+  | OU g => exists u, nth_error (users s) g = Some u /\ u_holds (u_pc u) = true /\ u_prog u <> []
+  | OF f => exists fl, nth_error (flushers s) f = Some fl /\ f_holds (f_pc fl) = true
+  end /\
+  exists n s', (1 <= n <= 3)%nat /\ run c s (repeat (tid_of o) n) = Some s' /\ mu s' = None.
+Proof.
+  intros s o Hr Hm. destruct (owner_releases c Hc s o (Inv_reachable c Hc s Hr) Hm) as [H1 [n [s' [Hn [Hrun [Hm' _]]]]]].
+  split; [destruct o; exact H1|]. eauto.
+Qed.
+
+(* exclusion: every goroutine whose pc is inside a critical section is THE owner *)
+Lemma top_mutual_exclusion : forall s, reachable c s ->
+  (forall g u, nth_error (users s) g = Some u -> u_holds (u_pc u) = true -> mu s = Some (OU g)) /\
+  (forall f fl, nth_error (flushers s) f = Some fl -> f_holds (f_pc fl) = true -> mu s = Some (OF f)).
+Proof.
+  intros s Hr. destruct (Inv_reachable c Hc s Hr) as [IM _]. split; [apply (u_mu _ IM)|apply (f_mu _ IM)].
+Qed.
+
+Lemma top_progress : forall s, reachable c s -> ~ all_user_calls_returned s ->
+  (exists g, step c s (U g) <> None) \/
+  (exists f n s', mu s = Some (OF f) /\ (1 <= n <= 3)%nat /\ run c s (repeat (F f) n) = Some s' /\
+                  mu s' = None /\ exists g, step c s' (U g) <> None).
+Proof. intros s Hr. apply progress; [exact Hc|apply (Inv_reachable c Hc); assumption]. Qed.
+
+Lemma top_no_deadlock : forall s, reachable c s -> ~ all_user_calls_returned s ->
+  exists t, is_goroutine t = true /\ step c s t <> None.
+Proof.
+  intros s Hr Hn. destruct (top_progress s Hr Hn) as [[g H]|[f [n [s' [Hm [Hn' [Hrun _]]]]]]].
+  - exists (U g). split; [reflexivity|exact H].
+  - exists (F f). split; [reflexivity|]. destruct n as [|n]; [lia|]. cbn [repeat run] in Hrun.
+    intros E. now rewrite E in Hrun.
+Qed.
+
+Lemma top_one_flusher : forall s, reachable c s ->
+  (uncancelled s <= 1)%nat /\
+  (forall f fl, nth_error (flushers s) f = Some fl -> f_cancelled fl = false -> canceler (rc s) = Some f) /\
+  (canceler (rc s) = None -> uncancelled s = O) /\
+  (forall f fl, nth_error (flushers s) f = Some fl -> f_pc fl = FDone -> f_cancelled fl = true).
+Proof.
+  intros s Hr. pose proof (Inv_reachable c Hc s Hr) as I. repeat split.
+  - now apply at_most_one_uncancelled.
+  - intros f fl. now apply uncancelled_is_canceler.
+  - intros E. now apply no_canceler_all_cancelled.
+  - intros f fl Hn Hp. destruct I as [_ [IF _]]. apply (can_c _ IF _ _ Hn). now right.
+Qed.
+
+Lemma top_cancelled_flusher : forall s f fl, reachable c s ->
+  nth_error (flushers s) f = Some fl -> f_cancelled fl = true ->
+  (* no own step persists, and each own step (incl. a pending tick) brings it closer to return *)
+  (forall t s', (t = F f \/ t = Tick f) -> step c s t = Some s' ->
+       persisted (rc s') = persisted (rc s) /\
+       exists fl', nth_error (flushers s') f = Some fl' /\ (f_rank (f_pc fl') < f_rank (f_pc fl))%nat) /\
+  (* and along every continuation of the run it never adds a sample and stays cancelled *)
+  (forall sched s', run c s sched = Some s' ->
+       samples_of f (rc s') = samples_of f (rc s) /\
+       exists fl', nth_error (flushers s') f = Some fl' /\ f_cancelled fl' = true).
+Proof.
+  intros s f fl Hr Hn Hcf. pose proof (Inv_reachable c Hc s Hr) as I. split.
+  - intros t s' Ht Hs. destruct (cancelled_step c Hc _ _ _ _ _ I Hs Hn Hcf) as [_ [Hp [fl' [Hn' [_ Hrk]]]]].
+    split; [now apply Hp|]. exists fl'. split; [exact Hn'|now apply Hrk].
+  - intros sched s' Hrun. eapply cancelled_never_persists; eauto.
+Qed.
+
+Lemma top_reset_cancels : forall s g cl rest s', reachable c s ->
+  nth_error (users s) g = Some (mkU UCrit (cl :: rest)) -> cl = EndTest \/ cl = Reset ->
+  step c s (U g) = Some s' ->
+  canceler (rc s') = None /\ uncancelled s' = O /\
+  forall f fl, nth_error (flushers s') f = Some fl -> f_cancelled fl = true.
+Proof.
+  intros s g cl rest s' Hr Hn Hcl Hs. pose proof (Inv_reachable c Hc s Hr) as I.
+  pose proof (Inv_step c Hc _ _ _ I Hs) as I'.
+  assert (Hcn : canceler (rc s') = None).
+  { cbn [step] in Hs. rewrite Hn in Hs. cbn [u_prog u_pc] in Hs. inversion Hs; subst s'. cbn [rc].
+    destruct Hcl as [-> | ->]; reflexivity. }
+  split; [exact Hcn|]. now apply no_canceler_all_cancelled.
+Qed.
+
+Lemma top_sum : forall s g rest s', reachable c s ->
+  nth_error (users s) g = Some (mkU UCrit (EndTest :: rest)) ->
+  step c s (U g) = Some s' ->
+  exists l, lock_log s = EndTest :: l /\
+    (cycle_stamped l = true ->
+       persisted (rc s') = persisted (rc s) ++ [mkS (wrap64 (sumZ (cycle_incs l))) (gauge (rc s)) (OU g)]) /\
+    (cycle_stamped l = false -> persisted (rc s') = persisted (rc s)) /\
+    ops (rc s') = 0.
+Proof.
+  intros s g rest s' Hr Hn Hs.
+  destruct (endtest_persists_sum c Hc _ _ _ _ (Inv_reachable c Hc s Hr) Hn Hs) as [l [Hl [_ [_ [H1 [H2 [H3 _]]]]]]].
+  exists l. auto.
+Qed.
+
+(* the running counter is, at every moment, the sum of the increments whose critical
+   section has been executed in the current cycle *)
+Lemma top_counter : forall s, reachable c s ->
+  ops (rc s) = wrap64 (sumZ (cycle_incs (applied_log s))) /\
+  stamped (rc s) = cycle_stamped (applied_log s).
+Proof.
+  intros s Hr. destruct (Inv_reachable c Hc s Hr) as [_ [_ IS]]. split; [apply (sum_ok _ IS)|apply (stamp_ok _ IS)].
+Qed.
+
+End Top.
+
+Lemma top_bounded_work : forall c progs sched s, run c (init progs) sched = Some s ->
+  (user_steps sched + user_work s = 3 * length (concat progs))%nat.
+Proof. intros c progs sched s H. rewrite <- user_work_init. now apply bounded_work. Qed.
+
+Lemma work_zero_returned : forall s, InvMu s -> user_work s = O -> all_user_calls_returned s.
+Proof.
+  intros s IM H. unfold all_user_calls_returned, user_work in *.
+  assert (Hall : forall g u, nth_error (users s) g = Some u -> u_holds (u_pc u) = true -> u_prog u <> []).
+  { intros g u Hn Hh. pose proof (u_mu _ IM _ _ Hn Hh) as Hm. destruct (mu_u _ IM _ Hm) as [u' [Hn' [_ Hp]]].
+    congruence. }
+  revert H Hall. induction (users s) as [|u l IH]; intros H Hall; constructor.
+  - cbn [map fold_right] in H. assert (Hu : u_work u = O) by lia.
+    destruct u as [pc prog]. unfold u_work in Hu. cbn [u_pc u_prog] in *.
+    destruct prog as [|cl rest]; [reflexivity|]. exfalso. cbn [length] in Hu. destruct pc; lia.
+  - apply IH.
+    + cbn [map fold_right] in H. lia.
+    + intros g u' Hn. apply (Hall (S g) u' Hn).
+Qed.
+
+Lemma top_old_deadlock :
+  exists sched s, run old_cfg (init old_progs) sched = Some s /\
+    ~ all_user_calls_returned s /\
+    (exists g cl rest, nth_error (users s) g = Some (mkU UIdle (cl :: rest))) /\
+    (exists f, mu s = Some (OF f) /\ nth_error (flushers s) f = Some (mkF FDone true)) /\
+    (forall t, step old_cfg s t = None) /\
+    (forall sched', sched' <> [] -> run old_cfg s sched' = None).
+Proof.
+  exists old_sched, old_stuck. split; [exact old_reaches_stuck|]. split; [|split; [|split; [|split]]].
+  - intros H. inversion H as [|u l Hu Hl]; subst. discriminate.
+  - exists O, (Inc 1), []. reflexivity.
+  - exists O. split; reflexivity.
+  - exact old_stuck_dead.
+  - intros [|t r] Hne; [congruence|]. cbn [run]. now rewrite old_stuck_dead.
+Qed.
